@@ -109,6 +109,31 @@ fn check_history(tables: &Tables, stmt_text: &str, si: usize, hist: &[u8]) -> (V
             }
         }
     }
+    // the batch side of the comparison through the real batch executor: the prefix as one file and split into two files
+    // (the first without a final line break) prints the same
+    if k >= 2 && k <= 3 && st.join_clause().is_none() {
+        let one = sut::files_from(&lines, &[k]);
+        if let Outcome::Ok(base) = sut::run_files(tables, &st, &[one[0].as_slice()], sut::FileRunOpts::default()) {
+            for cut in 1..k {
+                let two = sut::files_from(&lines, &[cut, k - cut]);
+                // (an empty last line needs its terminator to be a line at all)
+                let first = if lines[cut - 1].is_empty() { &two[0][..] } else { &two[0][..two[0].len() - 1] };
+                let got = sut::run_files(tables, &st, &[first, two[1].as_slice()], sut::FileRunOpts::default());
+                let same = matches!(&got, Outcome::Ok(g) if g.printed == base.printed && g.result.is_ok() == base.result.is_ok());
+                if !same {
+                    out.push(fail(
+                        format!("batch-files:{}:differs-when-split", feature),
+                        format!("`{}`: the batch executor over the first {} lines prints something else when they are split into two files after line {}", stmt_text, k, cut),
+                        json!({"stmt": si, "statement": stmt_text, "history": hist, "lines": lines, "cut": cut}),
+                        json!(base.printed),
+                        sut::outcome_json(&got, |f| f.to_json()),
+                        k as u64,
+                    ));
+                    break;
+                }
+            }
+        }
+    }
     (out, changes >= 2, h64(&format!("{:?}", bk.rows)))
 }
 
@@ -168,7 +193,24 @@ pub fn run(ctx: &Ctx) -> i32 {
                 continue;
             }
             let lines: Vec<&str> = hist.iter().map(|i| al[*i as usize]).collect();
-            let chunks: Vec<Vec<u8>> = lines.iter().map(|l| format!("{}\n", l).into_bytes()).collect();
+            // every other history is appended in three fragments per line (the reader polls between the appends)
+            let chunks: Vec<Vec<u8>> = if idx % 2 == 0 {
+                lines.iter().map(|l| format!("{}\n", l).into_bytes()).collect()
+            } else {
+                let mut v = Vec::new();
+                for l in &lines {
+                    let b = format!("{}\n", l).into_bytes();
+                    if b.len() >= 3 {
+                        let (p, q) = (b.len() / 3, 2 * b.len() / 3);
+                        v.push(b[..p].to_vec());
+                        v.push(b[p..q].to_vec());
+                        v.push(b[q..].to_vec());
+                    } else {
+                        v.push(b);
+                    }
+                }
+                v
+            };
             for text in fstmts.iter().copied() {
                 let st = sut::parse(text).unwrap();
                 let expected: Vec<Vec<String>> = match sut::run_incremental(&tables, &st, &lines) {
